@@ -1158,6 +1158,10 @@ namespace awkward {
     }
 
     ContentPtr next = content_.get()->carry(nextcarry, false);
+    // a reduction reads the data anyway: decide on the array itself, not on a VirtualArray around it
+    while (VirtualArray* raw = dynamic_cast<VirtualArray*>(next.get())) {
+      next = raw->array();
+    }
     if (RegularArray* raw = dynamic_cast<RegularArray*>(next.get())) {
       next = raw->toListOffsetArray64(true);
     }
